@@ -14,6 +14,7 @@ MOD = 'props.C11_seed'
 GRIDS = {
     # 3-level slices; extents chosen so that level 0 has several tiles
     'f2': dict(bbox=(0.0, 0.0, 1024000.0, 768000.0), res=[4000.0, 2000.0, 1000.0], tile_size=(256, 256), origin='ll'),
+    'f2ul': dict(bbox=(0.0, 0.0, 1024000.0, 768000.0), res=[4000.0, 2000.0, 1000.0], tile_size=(256, 256), origin='ul'),
     'f2w': dict(bbox=(0.0, 0.0, 2048000.0, 1536000.0), res=[4000.0, 2000.0, 1000.0], tile_size=(256, 256), origin='ll'),
     'irr': dict(bbox=(0.0, 0.0, 1000000.0, 700000.0), res=[1000.0, 400.0, 150.0], tile_size=(256, 256), origin='ul'),
     'sqrt2': dict(bbox=(0.0, 0.0, 1024000.0, 1024000.0), res=[4000.0, 2828.42712474619, 2000.0], tile_size=(256, 256), origin='ll'),
@@ -328,7 +329,7 @@ def obligations(tier, seed):
     specs = []
     cfgs = []
     for gname in GRIDS:
-        if gname == 'f2w':
+        if gname in ('f2w', 'f2ul'):
             continue
         heavy = gname == 'irr'
         if tier == 'thorough' or not heavy:
@@ -348,6 +349,9 @@ def obligations(tier, seed):
     # non-square meta tiles (rows and columns of the meta grid must not be mixed up)
     cfgs.append(dict(grid='f2', levels=[1, 2], meta=[4, 2], target_level=2))
     cfgs.append(dict(grid='f2', levels=[2], meta=[3, 2], target_level=2, width=1.2))
+    # ... also on a north-west origin grid (rows counted from the top)
+    cfgs.append(dict(grid='f2ul', levels=[2], meta=[4, 2], target_level=2, width=1.2))
+    cfgs.append(dict(grid='f2ul', levels=[1, 2], meta=[3, 1], target_level=2, width=1.0))
     if tier == 'thorough':
         cfgs.append(dict(grid='nonsq', levels=[1, 2], meta=[3, 2], target_level=2, width=1.2))     # ~6 min
         cfgs.append(dict(grid='irr', levels=[0, 1], meta=[2, 4], target_level=1, width=1.0))
